@@ -681,8 +681,12 @@ func (module *InMemoryStorage) deleteGroup(request *protocol.StorageRequest, req
 	clusterMap.consumerLock.Lock()
 	deleteAllGroupMetrics := true
 	if group, ok := clusterMap.consumer[request.Group]; ok && request.Topic != "" {
+		// The group's topics are guarded by the group lock (deleteTopic and the fetches hold only that one)
+		group.lock.Lock()
 		delete(group.topics, request.Topic)
-		if len(group.topics) == 0 {
+		remainingTopics := len(group.topics)
+		group.lock.Unlock()
+		if remainingTopics == 0 {
 			delete(clusterMap.consumer, request.Group)
 		} else {
 			// The consumer group consumes other topics, thus we need to keep its metrics
